@@ -14,6 +14,7 @@ let handle_q (f : string array) (o : string array) =
   let q = unhexs f.(1) and df = unhexs f.(2) and tag = f.(3) in
   let input = [("query", q); ("query_hex", f.(1)); ("default_field", df); ("tag", tag)] in
   bump "lines.Q";
+  if tag_get tag "giant" = Some "1" then check_q { q; df; tag; o; line = !current_case; mtree = None } input else begin
   (* --- correspondence --- *)
   let toks = lex_tokens cls (chars_of_string q) in
   bump "corr.lex";
@@ -57,6 +58,7 @@ let handle_q (f : string array) (o : string array) =
   end;
   (* --- property checks on the implementation's observation --- *)
   check_q { q; df; tag; o; line = !current_case; mtree = (match pr_ with PTree e -> Some e | _ -> None) } input
+  end
 
 (* ---------- L lines ---------- *)
 let handle_l (f : string array) (o : string array) =
